@@ -2,6 +2,7 @@ import PMV.Generated.Names
 import PMV.Generated.Pipeline
 import PMV.Model.Pipeline
 import PMV.Proofs.Rename
+import PMV.Proofs.Exports
 /-
   C10 — Names the user asks to preserve are preserved.
   `allow_rename_locals/globals` pin every binding whose name is listed (modelled as `applyPreserve`);
@@ -61,10 +62,31 @@ theorem preserved_names_kept (pg rl rgl : Bool) (moduleNs : Ns) (rg pl pgl : Lis
   have := pinned_kept _ pg _ _ r h hallow
   exact ⟨by rw [this.1, hn], this.2⟩
 
+/-- T10.2: `find__all__` returns exactly the names some module-level statement lists in `__all__` -/
+theorem findAll_exact (m : Module) (s : String) : s ∈ Exports.findAll m ↔ Exports.Exported m s :=
+  Exports.findAll_spec m s
+
+/-- T10.3: `allow_rename_globals` extends `preserve_globals` by `find__all__(module)`; hence a module-level binding
+    whose name is exported through `__all__` is never renamed, whatever the other options and lists are. -/
+theorem exported_names_kept (m : Module) (pg rl rgl : Bool) (moduleNs : Ns) (rg pl pgl : List String) (bindings : List Binding) (r : Result)
+    (h : r ∈ assign Generated.nameSeq pg moduleNs rg (bindings.map (applyPreserve rl rgl pl (pgl ++ Exports.findAll m))))
+    (n : String) (hn : r.b.name = some n) (hk : r.b.kind ≠ .hoisted) (hm : r.b.isModule = true) (he : Exports.Exported m n) :
+    r.final = some n ∧ r.renamed = false := by
+  apply preserved_names_kept pg rl rgl moduleNs rg pl (pgl ++ Exports.findAll m) bindings r h n hn hk
+  have : n ∈ Exports.findAll m := (Exports.findAll_spec m n).mpr he
+  simp [listed, hn, hm, this]
+
 /-- the preserve lists reach `allow_rename_*` and `rename` as in the modelled pipeline -/
 theorem pipeline_as_modelled : Generated.pipeline = Pipeline.modelled := by decide +kernel
 
 example : (applyPreserve true true ["keep_me"] [] ⟨0, .name, some "keep_me", 0, true, none, 1, false, [], []⟩).allow = false := by
+  decide
+
+/-- non-vacuity: a nested, annotated `__all__` is seen; one inside a function is not -/
+example : Exports.findAll ⟨[.if_ (.constant .true_) [.annAssign (.name "__all__" .store) (.name "list" .load)
+      (some (.list [.constant (.str "'a'" [97]), .constant (.int 1), .constant (.str "'b'" [98])])) true] [],
+    .functionDef false "f" (.mk [] [] none [] [] none [])
+      [.assign [.name "__all__" .store] (.list [.constant (.str "'c'" [99])])] [] none []]⟩ = ["a", "b"] := by
   decide
 
 end PMV.C10
